@@ -159,7 +159,9 @@ func c13BuildFile(idx int) *c13File {
 	return f
 }
 
-var c13Paths = []string{"Read[T]", "GenericReader(1)", "Rows", "Pages", "Seek+Rows", "Seek+Pages", "Seek+Reader", "ValueReader", "Rows(async)"}
+var c13Paths = []string{"Read[T]", "GenericReader(1)", "Rows", "Pages", "Seek+Rows", "Seek+Pages", "Seek+Reader", "ValueReader", "Rows(async)",
+	// after the first error the same seek and read are issued again on the same reader: what counts is the second answer
+	"Seek+Pages(retry)", "Seek+Rows(retry)"}
 
 var c13Faults = []string{"bit", "burst2", "burst3", "burst4", "burst8"}
 
@@ -219,13 +221,14 @@ func c13Access(f *c13File, data []byte, path string, pg c13Page, seek int64) (go
 				return
 			}
 		}
-	case "Rows", "Rows(async)", "Seek+Rows":
+	case "Rows", "Rows(async)", "Seek+Rows", "Seek+Rows(retry)":
 		schema := parquet.SchemaOf(CRow{})
 		base := int64(0)
+		retried := false
 		for rgi, rg := range pf.RowGroups() {
 			rows := rg.Rows()
 			start := int64(0)
-			if path == "Seek+Rows" {
+			if path == "Seek+Rows" || path == "Seek+Rows(retry)" {
 				// seek inside the row group that holds the target row
 				if seek >= base+rg.NumRows() || rgi < pg.rg {
 					base += rg.NumRows()
@@ -257,6 +260,30 @@ func c13Access(f *c13File, data []byte, path string, pg c13Page, seek int64) (go
 					got = append(got, crowString(r))
 				}
 				if e != nil {
+					if path == "Seek+Rows(retry)" && e != io.EOF && !retried {
+						// same seek, same read, once more on the same reader
+						retried = true
+						got, corrupted, err = nil, false, nil
+						from = base + start
+						if e2 := rows.SeekToRow(start); e2 != nil {
+							noteErr(e2)
+							break
+						}
+						n2, e2 := rows.ReadRows(buf)
+						for i := 0; i < n2; i++ {
+							var r CRow
+							if re := schema.Reconstruct(&r, buf[i]); re != nil {
+								noteErr(re)
+								break
+							}
+							got = append(got, crowString(r))
+						}
+						if e2 != nil && e2 != io.EOF {
+							noteErr(e2)
+						}
+						rows.Close()
+						return
+					}
 					noteErr(e)
 					break
 				}
@@ -267,7 +294,7 @@ func c13Access(f *c13File, data []byte, path string, pg c13Page, seek int64) (go
 			}
 			base += rg.NumRows()
 		}
-	case "Pages", "Seek+Pages", "ValueReader":
+	case "Pages", "Seek+Pages", "ValueReader", "Seek+Pages(retry)":
 		// only the corrupted column of the corrupted row group: values as strings
 		chunk := pf.RowGroups()[pg.rg].ColumnChunks()[pg.col]
 		if path == "ValueReader" {
@@ -288,7 +315,7 @@ func c13Access(f *c13File, data []byte, path string, pg c13Page, seek int64) (go
 		}
 		pages := chunk.Pages()
 		defer pages.Close()
-		if path == "Seek+Pages" {
+		if path == "Seek+Pages" || path == "Seek+Pages(retry)" {
 			base := int64(0)
 			for i := 0; i < pg.rg; i++ {
 				base += f.groups[i]
@@ -317,6 +344,25 @@ func c13Access(f *c13File, data []byte, path string, pg c13Page, seek int64) (go
 				parquet.Release(p)
 			}
 			if e != nil {
+				if path == "Seek+Pages(retry)" && e != io.EOF {
+					// same seek, same read, once more: the answer of the retry is the result
+					got, corrupted, err = nil, false, nil
+					if e2 := pages.SeekToRow(from); e2 != nil {
+						noteErr(e2)
+						return
+					}
+					p2, e2 := pages.ReadPage()
+					if p2 != nil {
+						vals := make([]parquet.Value, p2.NumValues())
+						n, _ := p2.Values().ReadValues(vals)
+						for i := 0; i < n; i++ {
+							got = append(got, fmt.Sprintf("%d/%d/%v", vals[i].RepetitionLevel(), vals[i].DefinitionLevel(), vals[i].String()))
+						}
+						parquet.Release(p2)
+					}
+					noteErr(e2)
+					return
+				}
 				noteErr(e)
 				return
 			}
@@ -374,10 +420,10 @@ func c13Run(x *engine.X) {
 	try := func(what string) bool {
 		for _, s := range seeks {
 			x.AddEvals(1)
-			got, _, corrupted, err := c13Access(f, data, path, pg, s)
+			got, from, corrupted, err := c13Access(f, data, path, pg, s)
 			// does this access touch the corrupted page?
 			touches := true
-			if strings.HasPrefix(path, "Seek+") && pg.isDict && path != "Seek+Pages" {
+			if strings.HasPrefix(path, "Seek+") && pg.isDict && !strings.HasPrefix(path, "Seek+Pages") {
 				// the dictionary of a row group that ends before the seek target is never loaded
 				end := int64(0)
 				for i := 0; i <= pg.rg; i++ {
@@ -388,7 +434,7 @@ func c13Run(x *engine.X) {
 			if strings.HasPrefix(path, "Seek+") && !pg.isDict {
 				// rows before the seek target are never decoded; pages wholly before it are not touched
 				end := pg.firstRow + pg.numRows
-				if path == "Seek+Pages" {
+				if strings.HasPrefix(path, "Seek+Pages") {
 					base := int64(0)
 					for i := 0; i < pg.rg; i++ {
 						base += f.groups[i]
@@ -404,6 +450,32 @@ func c13Run(x *engine.X) {
 				} else {
 					touches = end > s
 				}
+			}
+			retry := strings.HasSuffix(path, "(retry)")
+			if retry && err != nil {
+				corrupted = true // the first answer identified the corruption; any error will do for the second
+			}
+			if err == nil && retry && len(got) <= len(ref[s]) && equalStrings(got, ref[s][:len(got)]) && len(got) < len(ref[s]) {
+				// a retry reads one batch only (one page, or up to 2 rows): a correct
+				// prefix without error is wrong only if that batch lies in the corrupted page
+				if touches && !pg.isDict {
+					lo, hi := from, from+1 // rows of the batch (file-level for rows, chunk-level for pages)
+					if strings.HasPrefix(path, "Seek+Rows") {
+						hi = from + int64(len(got))
+					} else {
+						base := int64(0)
+						for i := 0; i < pg.rg; i++ {
+							base += f.groups[i]
+						}
+						lo, hi = base+from, base+from+1
+					}
+					touches = pg.firstRow < hi && pg.firstRow+pg.numRows > lo
+				}
+				if touches {
+					x.Failf("undetected", shape, "%s, seek=%d: the retried read went through the corrupted page and returned its original data without any error", what, s)
+					return false
+				}
+				continue
 			}
 			if err == nil {
 				// no error: the rows must be exactly the intact ones, and the page must not have been needed
